@@ -168,13 +168,17 @@ def _compile_many(jobs, nproc=16):
 
 
 def _prune(keep):
+    """Remove old build directories: never the current one, never one of the four most
+    recent, never one used in the last two hours (a running check may still need it)."""
     try:
         ds = [d for d in os.listdir(BUILD_ROOT) if os.path.isdir(os.path.join(BUILD_ROOT, d)) and d != keep]
     except OSError:
         return
     ds.sort(key=lambda d: os.path.getmtime(os.path.join(BUILD_ROOT, d)))
-    for d in ds[:-3] if len(ds) > 3 else []:
-        shutil.rmtree(os.path.join(BUILD_ROOT, d), ignore_errors=True)
+    now = time.time()
+    for d in ds[:-4] if len(ds) > 4 else []:
+        if now - os.path.getmtime(os.path.join(BUILD_ROOT, d)) > 7200:
+            shutil.rmtree(os.path.join(BUILD_ROOT, d), ignore_errors=True)
 
 
 def build(repo=None, verbose=False):
